@@ -9,8 +9,8 @@ from vlib import apigen, pipeline, rdm, refs
 
 ID = "C16"
 LEVEL = "exploration"
-RULE = ("cases = subsets of the 7 RPCs of a two-service API whose type graph has sharing, nesting (a nested type referenced without its "
-        "parent), recursion, enum-only and LRO-only files and resource references (thorough: all 127 non-empty subsets x {omit, "
+RULE = ("cases = subsets of the 9 RPCs of a two-service API whose type graph has sharing, nesting (a nested type referenced without its "
+        "parent), recursion, enum-only and LRO-only files and resource references (thorough: all 511 non-empty subsets x {omit, "
         "keep-as-internal}; quick: a seeded sample) plus settings naming unknown / other-version methods; the imported selective "
         "library's client methods and classes are compared with two closures computed on the input descriptors (need: must be present "
         "and usable; may: upper bound), every kept RPC is called against the loopback server and its path/payload/header judged, and "
@@ -33,14 +33,14 @@ def all_rpcs(req):
 
 def plan(seed, tier):
     rng = random.Random(seed)
-    names = ["GetShelf", "GetBook", "ListBooks", "TagInner", "ImportBooks", "Ping", "Grow"]
+    names = ["GetShelf", "GetBook", "ListBooks", "TagInner", "ImportBooks", "Ping", "Grow", "PurgeBooks", "Annotate"]
     subsets = [list(c) for r in range(1, len(names) + 1) for c in itertools.combinations(names, r)]
     if tier == "quick":
         singles = [s for s in subsets if len(s) == 1]
         others = [s for s in subsets if len(s) > 1]
         rng.shuffle(others)
-        chosen = singles + others[:33]
-        internal = others[33:41] + singles[:2]
+        chosen = singles + others[:36]
+        internal = others[36:44] + singles[:2]
     else:
         chosen, internal = subsets, subsets
     cases = [{"id": f"sel-{seed}-{i}", "seed": seed * 100003 + i, "subset": s, "internal": False} for i, s in enumerate(chosen)]
@@ -196,7 +196,7 @@ def run_case(case):
         for fd in x.DESCRIPTOR.fields:
             if fd.name in ("name", "parent"):
                 setattr(x, fd.name, {"GetShelf": "shelves/s1", "GetBook": "shelves/s1/books/b1", "ListBooks": "shelves/s1", "TagInner": "shelves/s1",
-                                     "ImportBooks": "shelves/s1"}.get(m.name, "x"))
+                                     "ImportBooks": "shelves/s1", "PurgeBooks": "shelves/s1"}.get(m.name, "x"))
         calls.append({"service": s.name, "rpc": m.name, "method": rdm.py_method(m.name), "req_type": m.input_type.lstrip("."),
                       "request": rdm.b64(x.SerializeToString()), "path": f"/{p.package}.{s.name}/{m.name}"})
     script = {"root_pkg": apigen.lib_root(api.info, api.options), "types": types, "calls": calls,
